@@ -687,7 +687,126 @@ func verifC01IPNetOp(r *verifutil.Rand) string {
 	return fmt.Sprintf("ipnet %s %s %s", verifutil.HexS(text), cidr, ipS)
 }
 
+// exact (non-`~`) permission paths: legal path names with `.`, `-`, `_`, `/`, and configurable-but-illegal ones
+// holding regexp metacharacters. A literal path must be compared byte for byte, never interpreted.
+var verifC01MetaPaths = []string{
+	"site1/cam.1", "cam.1", "a.b.c", "dir.x/cam-1", "cam_1", "site-1/cam_2", "a/b/c.d", "v1.2.3", ".hidden", "x.",
+	"cam+1", "cam(1)", "cam[12]", "cam*", "cam?", "a|b", "^cam1", "cam1$", "cam\\d", "c.m+(x)[y]*z?", "a{2}", "(?i)cam",
+	"cam1|vault", ".*", ".+", "[a-z]+", "cam.1$", "^", "$", "\\", "(", "[", "*",
+}
+
+// single-position edits of a permitted path, aimed at its metacharacters
+func verifC01EditPath(r *verifutil.Rand, p string) string {
+	if p == "" {
+		return r.Pick("x", "/", ".")
+	}
+	var metas []int
+	for i := 0; i < len(p); i++ {
+		if strings.IndexByte(".-_/+()[]*?|^$\\{}", p[i]) >= 0 {
+			metas = append(metas, i)
+		}
+	}
+	i := r.Intn(len(p))
+	if len(metas) != 0 && !r.Chance(1, 5) {
+		i = metas[r.Intn(len(metas))]
+	}
+	switch r.Intn(6) {
+	case 0, 1: // replace by another byte
+		c := "1x_/.-a0Z"[r.Intn(9)]
+		if c == p[i] {
+			c = 'q'
+		}
+		return p[:i] + string(c) + p[i+1:]
+	case 2: // delete it
+		return p[:i] + p[i+1:]
+	case 3: // duplicate the preceding byte (what `x+`, `x*`, `x{2}` would accept)
+		if i == 0 {
+			return string(p[0]) + p
+		}
+		return p[:i] + string(p[i-1]) + p[i+1:]
+	case 4: // insert a byte / extend (unanchored or prefix matching would accept)
+		return p[:i] + r.Pick("x", "/", "1") + p[i:]
+	default:
+		return r.Pick(p+"x", "x"+p, p+"/sub", strings.ToUpper(p), "vault")
+	}
+}
+
+// Histories about path-bound permissions: exact paths with metacharacters, all three path-bound actions in
+// equal proportion, each probed with the exact path and with single-position edits; non-path actions mixed in.
+func verifC01PathHist(r *verifutil.Rand, i int, thorough bool) []string {
+	bound := []string{"publish", "read", "playback"}
+	free := []string{"api", "metrics", "pprof"}
+	nu := 1 + r.Intn(2)
+	var us []verifC01User
+	type target struct{ action, path string }
+	var targets []target
+	for k := 0; k < nu; k++ {
+		pu, pp := verifC01Names[r.Intn(3)], verifC01Names[4+r.Intn(3)]
+		u := verifC01User{User: "any"}
+		if k > 0 || r.Bool() {
+			u.User = conf.Credential(verifC01CleanCred(r, pu, r.Intn(2)))
+			u.Pass = conf.Credential(verifC01CleanCred(r, pp, r.Intn(2)))
+			verifC01Plain[string(u.User)] = pu
+			verifC01Plain[string(u.Pass)] = pp
+		}
+		np := 1 + r.Intn(3)
+		for j := 0; j < np; j++ {
+			a := bound[(i+k+j)%3]
+			var path string
+			switch r.Intn(8) {
+			case 0:
+				path = verifC01CfgPath[r.Intn(len(verifC01CfgPath))] // incl. `~regex` and empty
+			case 1:
+				path = r.Pick("lobby", "vault", "cam1")
+			default:
+				path = verifC01MetaPaths[r.Intn(len(verifC01MetaPaths))]
+			}
+			u.Permissions = append(u.Permissions, conf.AuthInternalUserPermission{Action: conf.AuthAction(a), Path: path})
+			targets = append(targets, target{a, path})
+		}
+		if r.Chance(1, 3) {
+			u.Permissions = append(u.Permissions, conf.AuthInternalUserPermission{
+				Action: conf.AuthAction(free[r.Intn(3)]), Path: r.Pick("", "ignored", "cam.1")})
+		}
+		us = append(us, u)
+	}
+	ops := []string{"reset " + verifC01EncUsers(us)}
+	n := 6 + r.Intn(5)
+	if thorough {
+		n = 6 + r.Intn(12)
+	}
+	for k := 0; k < n; k++ {
+		t := targets[r.Intn(len(targets))]
+		u := us[r.Intn(len(us))]
+		q := &verifC01Q{action: t.action, path: t.path, cv: "n", ask: r.Bool(), ip: []byte{10, 0, 0, 1}}
+		if pl, ok := verifC01Plain[string(u.User)]; ok && string(u.User) != "any" {
+			q.user, q.pass = pl, verifC01Plain[string(u.Pass)]
+		} else if r.Bool() {
+			q.user, q.pass = "alice", "pw1"
+		}
+		switch r.Intn(10) {
+		case 0, 1, 2: // exact path: must match
+		case 3, 4, 5, 6, 7: // single-position edit: must not match a literal (may match a `~regex`)
+			base := t.path
+			if strings.HasPrefix(base, "~") {
+				base = r.Pick("cam1", "dir/cam1", "live")
+			}
+			q.path = verifC01EditPath(r, base)
+		case 8: // same path, another path-bound or free action
+			q.action = append(bound, free...)[r.Intn(6)]
+		default:
+			q.action = free[r.Intn(3)]
+			q.path = r.Pick("", t.path, "whatever")
+		}
+		ops = append(ops, q.op(r, us))
+	}
+	return ops
+}
+
 func verifC01Gen(r *verifutil.Rand, i int, thorough bool) []string {
+	if i%6 == 2 || i%6 == 5 {
+		return verifC01PathHist(r, i/3, thorough)
+	}
 	if i%10 == 9 {
 		ops := []string{"reset _"}
 		for k := 0; k < 4; k++ {
